@@ -394,3 +394,6 @@ def body(check):
     check.guarded("BC-DEF", "euler1d", lambda: bc_def_1d(check, proj))
     check.guarded("BC-DEF", "other", lambda: bc_def_other(check, proj))
     check.floor("registered boundary conditions", check.inventory.get("registered boundary conditions", 0), 22)
+    from . import c15
+    if check.guarded("LAYOUT-AGREE", "modeldisc.fvm2dcart", lambda: c15.layout_agree(check)):
+        check.guarded("BC-2D-SITE", "modeldisc.fvm2dcart.calc_bc", lambda: c15.bc_sites(check))
